@@ -76,6 +76,18 @@ class DirectiveParsingResult:
     """
 
 
+def _split_lines(text: str) -> list[str]:
+    """Split text into Markdown lines.
+
+    Only ``\\n`` separates lines here, whereas ``str.splitlines`` would also split on
+    e.g. form feeds and unicode line/paragraph separators, which are part of the text.
+    """
+    lines = text.split("\n")
+    if lines and not lines[-1]:
+        lines.pop()
+    return lines
+
+
 def parse_directive_text(
     directive_class: type[Directive],
     first_line: str,
@@ -117,8 +129,8 @@ def parse_directive_text(
         parse_warnings = result.warnings
         has_options_block = result.has_options
         options = result.options
-        body_lines = result.content.splitlines()
-        content_offset = len(content.splitlines()) - len(body_lines)
+        body_lines = _split_lines(result.content)
+        content_offset = len(_split_lines(content)) - len(body_lines)
         if has_options_block and result.content.endswith("\n"):
             # a trailing blank line of the content is not retained in the body,
             # and so must not be counted as a line before the body
@@ -127,7 +139,7 @@ def parse_directive_text(
         parse_warnings = []
         has_options_block = False
         options = {}
-        body_lines = content.splitlines()
+        body_lines = _split_lines(content)
         content_offset = 0
 
     if not (directive_class.required_arguments or directive_class.optional_arguments):
@@ -183,7 +195,7 @@ def _parse_directive_options(
     options_block: None | str = None
     if content.startswith("---"):
         line = None if line is None else line + 1
-        content = "\n".join(content.splitlines()[1:])
+        content = "\n".join(_split_lines(content)[1:])
         match = re.search(r"^-{3,}", content, re.MULTILINE)
         if match:
             options_block = content[: match.start()]
@@ -193,7 +205,7 @@ def _parse_directive_options(
             content = ""
         options_block = dedent(options_block)
     elif content.lstrip().startswith(":"):
-        content_lines = content.splitlines()
+        content_lines = _split_lines(content)
         yaml_lines = []
         while content_lines:
             if not content_lines[0].lstrip().startswith(":"):
